@@ -172,7 +172,7 @@ def step (st : DState) (line : String) : DState × String :=
       | [p, fd] => some (unhex p, natOf fd)
       | _ => none
     let ks : Kq.KState := { wd := wd, path := path, byUser := (semi "byuser").map unhex, openFds := csvNats (kv args "open") }
-    (st, if ks.inv then "ok" else "INV-VIOLATED")
+    (st, ks.invReport ((semi "links").map unhex))
   | ["dblocks", a, b] =>
     let ms := Diff.matchingBlocks (tokLines a) (tokLines b)
     (st, ";".intercalate (ms.map fun m => s!"{m.a},{m.b},{m.size}"))
